@@ -133,18 +133,51 @@ Section Live.
   Definition ei_tb (fs : list live_frame) (e : live_exc) : tb :=
     mkTb (map (std_frame C) fs) (std_type e) (ei_msg e).
 
-  (* ExceptionInfo's text is the plain rendering of it, whatever the call chain *)
-  Theorem ei_text_plain fs e : ei_text C fs e = plain_text (ei_tb fs e).
+  Lemma cp_same_std a b : cp_same (cp_of_live a) (cp_of_live b) = same_place (std_frame C a) (std_frame C b).
   Proof.
-    unfold ei_text, ei_formatted, tbi_formatted, plain_text, plain_lines, ei_tb. cbn [t_frames t_type t_msg].
+    unfold cp_same, same_place, cp_of_live, std_frame.
+    cbn [cp_path cp_lineno cp_func f_path f_lineno func_of f_func]. f_equal. f_equal.
+    destruct (lv_lineno a =? lv_lineno b) eqn:E.
+    - apply N.eqb_eq in E. rewrite E. symmetry. apply str_eqb_refl.
+    - symmetry. destruct (str_eqb (dec (lv_lineno a)) (dec (lv_lineno b))) eqn:E2; [|reflexivity].
+      apply str_eqb_eq, dec_inj in E2. apply N.eqb_neq in E. contradiction.
+  Qed.
+
+  Lemma repeated_str_std count : repeated_str count = flat_map (fun x => x ++ NL) (flush_repeat count).
+  Proof.
+    unfold repeated_str, flush_repeat. rewrite (N.leb_antisym 3 count). destruct (3 <? count); cbn [negb flat_map]; [|reflexivity].
+    unfold repeat_line. change M_prev1 with L_prev1. change M_prev2 with L_prev2. change M_nl with NL.
+    rewrite app_nil_r, <- !app_assoc. reflexivity.
+  Qed.
+
+  Lemma tbi_fold_std fs : forall last count,
+    tbi_fold C (option_map cp_of_live last) count (map cp_of_live fs) =
+    flat_map (fun x => x ++ NL) (fold_entries (option_map (std_frame C) last) count (map (std_frame C) fs)).
+  Proof.
+    induction fs as [|l fs IH]; intros last count; cbn [map tbi_fold fold_entries].
+    - apply repeated_str_std.
+    - assert (S : match option_map cp_of_live last with Some l0 => cp_same l0 (cp_of_live l) | None => false end
+                  = match option_map (std_frame C) last with Some l0 => same_place l0 (std_frame C l) | None => false end).
+      { destruct last as [l0|]; [apply cp_same_std|reflexivity]. }
+      rewrite S. destruct (match option_map (std_frame C) last with Some l0 => same_place l0 (std_frame C l) | None => false end).
+      + rewrite (N.leb_antisym 3 (count + 1)). destruct (3 <? count + 1); cbn [negb].
+        * cbn [app]. apply IH.
+        * rewrite flat_map_app, <- IH, tb_frame_str_std. reflexivity.
+      + rewrite !flat_map_app, repeated_str_std, tb_frame_str_std.
+        change (Some (cp_of_live l)) with (option_map cp_of_live (Some l)).
+        change (Some (std_frame C l)) with (option_map (std_frame C) (Some l)). rewrite IH. reflexivity.
+  Qed.
+
+  (* ExceptionInfo's text is the interpreter's rendering of it, whatever the call chain *)
+  Theorem ei_text_std fs e : ei_text C fs e = std_text (ei_tb fs e).
+  Proof.
+    unfold ei_text, ei_formatted, tbi_formatted, std_text, std_lines, ei_tb. cbn [t_frames t_type t_msg].
     rewrite ei_type_std.
-    change (L_header :: flat_map entry_lines (map (std_frame C) fs) ++ [exc_text (std_type e) (ei_msg e)])
-      with ((L_header :: flat_map entry_lines (map (std_frame C) fs)) ++ [exc_text (std_type e) (ei_msg e)]).
+    change (L_header :: fold_entries None 0 (map (std_frame C) fs) ++ [exc_text (std_type e) (ei_msg e)])
+      with ((L_header :: fold_entries None 0 (map (std_frame C) fs)) ++ [exc_text (std_type e) (ei_msg e)]).
     rewrite join_terminated. cbn [flat_map].
     change M_header with L_header. change M_nl with NL. rewrite <- !app_assoc. f_equal. f_equal.
-    f_equal.
-    - rewrite flat_map_flat_map. induction fs as [|l fs IH]; [reflexivity|].
-      cbn [map flat_map]. rewrite IH, tb_frame_str_std. reflexivity.
+    f_equal. exact (tbi_fold_std fs None 0).
   Qed.
 
   (* in the ordinary case (str(value) works, no display-time suggestion) that is the
